@@ -7,6 +7,24 @@ import props as P
 
 allp = [json.loads(l) for l in open(os.path.join(ROOT, 'properties.jsonl'))]
 hooks_commits = ['6002121']
+
+LEVEL = {
+ 'C01': 'Proved (Props/C01.v, C01w.v): release step in closed form; total value of a release group <= arrived coins for every group and arrival under E1\' only; exact payout, removal of exactly the paid entries, repeated withdrawal fails, withdrawal succeeds under the funding invariant; order independence with equal final states; the funding invariant (released claims <= prev_hub_balance <= hub balance) in EVERY world of every history inside the named envelope (legacy-free, no hub-signed root, underlying usei, E1\' at visited worlds). Not proved, left to monitors: arrival identity (bank - prev = coins delivered by the staking module, E2/E3).',
+ 'C02': 'Proved: bonds delegate exactly the payment to registered validators, undelegations leave the books by exactly their sum, the slashing check restores booked <= delegated; stack invariant booked + pending undelegations <= delegated + pending delegations for every message of every transaction; after any history every successful pricing transaction ends with booked <= delegated (no hypothesis); liquid balance never lowered except by WithdrawUnbonded, exactly unchanged for the three bond kinds. Exact liquid equality for convert/index update/remove only under an explicit trace condition.',
+ 'C03': 'Proved at handler level for every pricing handler and branch (exact mint/burn/fee/pool movement, State query characterised, rounding in the pool favour, rejections). The effect of the emitted Mint/Burn on the supply is an explicit arithmetic link (closed by the token lemmas of C18 and the T2 monitors; transaction-level linking for bonds in Props/C04w.v when integrated).',
+ 'C04': 'Proved at handler level for every pricing handler and branch: a Sound rate before implies Backed and a rate not lower after; BondRewards mints nothing. Guarded by Backed: the complement is the known finding F5 (witnessed). History-level statement is the composition with the frame lemmas; monitored on every non-slashing step.',
+ 'C05': 'Proved at handler level for all four paths: fee = min(max fee, required), zero above threshold, never negative, no overshoot (exact for three paths, +1 tight for bSei->stSei with the fix commit 078c6d5), fee code cannot fail under E1.',
+ 'C06': 'Proved at handler/kernel level: exact recognition (pools sum to the delegated amount), pro-rata within two units in integer form, no-op cases, the check is the first step of every pricing handler, per-batch and per-token split of unbonding losses in closed form within one unit of pro rata.',
+ 'C07': 'Proved: ClaimsInv in every world of every legacy-free history; unbond effect; claims grow only via registered tokens and shrink only by the owner withdrawal of a released batch; query faithfulness.',
+ 'C08': 'Proved: LifeInv in every world of every history; undelegation only when closing a batch after strictly more than the epoch period; release only after the unbonding period (boundary exact both ways); released entries immutable forever; bank messages only for released batches; history-level time-lock under E2.',
+ 'C09': 'Proved: stub independence of all exit/bond/token/claim transactions and whole histories for arbitrary stub behaviour; the hub Unbond hook and the token Send succeed for every positive amount under the named invariants; first unbond after the epoch closes the batch. Guarded by Backed (known finding F5, witnessed). Whole-transaction composition in Props/C09w.v when integrated; additionally exercised by dry-run probes on cloned implementation worlds.',
+ 'C13': 'Proved: registry removal (owner only, never the last), redelegation plan sums to the whole stake on registered targets, hub proxy 1:1, transaction decomposition and end state at any point of any history, gap delegated-booked unchanged from Books. Full composition with the appended UpdateGlobalIndex in Props/C13w.v when integrated.',
+ 'C14': 'Proved: RInv preserved by all messages; claim pays exactly the whole-unit part iff >= 1; no guard hit under E1; solvency in every world of every history inside the named envelope; dust < 1 unit per update and claimed <= delivered over contract-level traces (history-level in Props/C14w.v when integrated).',
+ 'C15': 'Proved at handler level: exact proportional accrual, settlement preserves accrued rewards, other holders untouched, commutation on distinct holders, split-account linearity. Relational claims are theorems about two executions of the model.',
+ 'C16': 'Proved: Mirror in every visited world of every history inside the named envelope (fresh ledgers or wired; no root signed by the bSei contract; no re-instantiation over live holders), via a stack invariant over pending Increase/DecreaseBalance messages; per-handler message/ledger deltas.',
+ 'C19': 'Proved at transaction level: under wiring, stub, E1 hypotheses and outside the known class F2 the UpdateGlobalIndex transaction succeeds with the stated end state (all rewards withdrawn, dispatcher empty, keeper fee exact, stSei pool and delegations grown by the re-bonded amount, everything else unchanged). F2 is a known finding (three witnesses).',
+}
+
 NA_REASON = {}
 checks = []
 for p in allp:
@@ -23,7 +41,7 @@ for p in allp:
         'engine': 'rocq-model+correspondence',
         'level_claimed': {
             'category': 'proof',
-            'text': spec.get('level_text') or (
+            'text': LEVEL.get(pid) and (LEVEL[pid] + ' All theorems are machine-checked by the Coq 8.16.1 kernel with no axioms about a hand-written executable Gallina model, which is tied to /repo on every run by differential correspondence (kernel streams, histories on the real contracts vs the extracted model) and monitored on the implementation traces.') or spec.get('level_text') or (
                 'Theorems of coq/%s about the hand-written executable Gallina model (machine-checked by the Coq 8.16.1 kernel, '
                 'no axioms) hold for all inputs/states/histories they quantify over; the model is tied to /repo on every run by '
                 'differential correspondence (kernel streams and histories executed on the real contracts and on the extracted model) '
@@ -32,7 +50,7 @@ for p in allp:
         },
         'level_note': spec.get('level_note') or (
             'Trusted: Coq kernel; the reading of the property as the theorems in %s; the environment model (bank/staking/'
-            'distribution/CosmWasm dispatch, DESIGN.md section 7); extraction (ExtrOcamlBasic only) + OCaml driver + Rust harness; '
+            'distribution/CosmWasm dispatch, DESIGN.md section 7); extraction (ExtrOcamlBasic only: its Extract Inductive directives and the inlined andb/orb) + OCaml driver + Rust harness; '
             'correspondence is differential testing with measured coverage, not proof.' % spec['props_file']),
         'technique': spec.get('technique', 'Coq proof over executable model + model/implementation correspondence check'),
     })
